@@ -67,7 +67,7 @@ PROPS = {
     "C08": dict(level="proof", canaries=[(CANARY, "canary:filter-yields-before-test")],
                 trusted_base=TB_COMMON + ["specification ScopeSpec/ScopedSpec (contracts/refs/ref_asynctools.py) written from the property", "nesting explored to depth 2 (an inner scope's iterator is the outer handle, whose aclose is a no-op: deeper nesting repeats the same step)"],
                 explanation="histories inside the block (next, close, closing tool, nested scope enter/exit) and both exit kinds (normal / BaseException as for cancellation): the underlying iterator's close counter is 0 after every operation inside the block, exactly 1 after leaving the outermost scope, and the handle yields nothing afterwards"),
-    "C09": dict(level="proof", canaries=[(CANARY, "canary:filter-yields-before-test")], extra=[extras.seq_suffix_lemma],
+    "C09": dict(level="proof", canaries=[(CANARY, "canary:filter-yields-before-test")], extra=[extras.seq_suffix_lemma, extras.tee_schedules],
                 trusted_base=TB_COMMON + ["ghost state: hist = sequence of items the source answered, y_p = number of items child p yielded",
                                           "deque/list contract (append, popleft, pop(idx), identity search) of the interpreter; z3 sequence theory with cvc5 --strings-exp as second back end for queries z3 leaves unknown",
                                           "cooperative scheduling: children interleave at yields (consumer loop) and, with a lock, at the lock and inside the source"],
@@ -79,13 +79,13 @@ PROPS = {
                 bounded_note=[{"what": "CallKey.from_call vs functools._make_key induce the same partition of call patterns", "bound": "values {1, 1.0, True, '1', (1, 2), None, 2, 'a'} in up to 2 positional and 2 keyword arguments, both keyword orders, typed in {False, True}: native enumeration (bounded stand-in, not counted as discharged)"},
                               {"what": "bound methods / classmethods / staticmethods", "bound": "LRUAsyncBoundCallable only prepends __self__; random native histories against functools.lru_cache used the same way (replay/bounded.py, labelled bounded), not by obligations"}],
                 explanation="data structure against abstract view: every operation (awaited call incl. failing calls, cache_info, cache_parameters, cache_clear, cache_discard) of Uncached/Memoized/CachedLRUAsyncCallable and of the lru_cache front end refines the abstract LRU view from an arbitrary state of each shape (consumer loop = cut point, so histories are unbounded; maxsize symbolic; three symbolic call patterns)"),
-    "C11": dict(level="proof", canaries=[(CANARY, "canary:max-last-of-ties")],
+    "C11": dict(level="proof", canaries=[(CANARY, "canary:max-last-of-ties")], extra=[extras.lru_schedules],
                 trusted_base=TB_COMMON + ["cooperative scheduling: tasks interleave only at the await of the wrapped function (the only suspension point in __call__; C17 effect typing)",
                                           "rely = guarantee = the shared invariant I: at the suspension point the shared state (store, hits, misses, ghost counters) is replaced by ANY state satisfying I; the store is havocked to 0..2 entries of fresh patterns (the code after the await only distinguishes `key in cache` and `len >= maxsize`)",
                                           "dict / OrderedDict contract of pyvc/odmodel.py; CallKey.from_call replaced by its contract as in C10"],
                 bounded_note=[{"what": "store size visible to the resumed segment", "bound": "interference leaves 0, 1 or 2 entries (symbolic patterns, symbolic maxsize >= 1 or None)"}],
                 explanation="Owicki-Gries / rely-guarantee at the suspension point of __call__: the invariant I = {hits+misses = calls started, misses = invocations of the wrapped function, entries <= maxsize, every stored value was produced for its pattern, patterns distinct} is proved at the suspension (end of segment S1), after the resumed segment for every outcome (value, exception, cancellation) from an arbitrary I-state, and after cache_clear/cache_discard/cache_info; every returned value was produced for an equal pattern. No schedule is enumerated: any interleaving is a sequence of such segments"),
-    "C12": dict(level="proof", canaries=[(CANARY, "canary:max-last-of-ties")],
+    "C12": dict(level="proof", canaries=[(CANARY, "canary:max-last-of-ties")], extra=[extras.cached_property_schedules],
                 trusted_base=TB_COMMON + ["specification contracts/refs/ref_cached_property.py written from the property (slot = absent / placeholder / value)",
                                           "Python's attribute lookup: an instance-dict entry shadows the non-data descriptor; `del instance.attr` removes the entry",
                                           "user lock contract: __aenter__ returns only when unheld and then holds, __aexit__ releases; both may suspend",
@@ -102,7 +102,7 @@ PROPS = {
                                           "deque/reversed/partial contracts of the interpreter"],
                 bounded_note=[{"what": "stack size", "bound": "registrations enumerated up to 2 (quick) / 3 (thorough) entries of every kind; the unwinding loop is unrolled for these sizes (no loop invariant in the stack size); exit behaviours, block outcome and the history {unwind, aclose, pop_all, unwind again} are explored exhaustively and symbolically"}],
                 explanation="every history register* ; (leave|aclose|pop_all)* of the real ExitStack against the nested-with specification: same exits called with the same in-flight exception in the same order, same overall outcome, each exit exactly once"),
-    "C15": dict(level="proof", canaries=[(CANARY, "canary:filter-yields-before-test")],
+    "C15": dict(level="proof", canaries=[(CANARY, "canary:filter-yields-before-test")], extra=[extras.decorator_schedules],
                 trusted_base=TB_COMMON + ["specification contracts/refs/ref_contextlib_spec.py written from the property; async-with semantics A2",
                                           "non-interference of concurrent calls follows from the per-call events: each call of a generator-based manager performs its own Call(genfunc) and drives only that generator object (event-match on object identity), and the decorator object is not written (only objects allocated by the call are)"],
                 explanation="a decorated call against the specification, for generator-based managers (fresh generator per call: the generator function is called once per call and only that generator is resumed/thrown into) and class-based ContextDecorator managers: enter before the body, exit after it with the body's exception (incl. BaseException/cancellation at every suspension), result/exception passed through unless suppressed"),
